@@ -320,6 +320,7 @@ def run_check(cid, tier, seed):
         property_id=cid, tier=tier, seed=seed, level=level,
         coverage=dict(
             obligations=n_obs + scan_obs, discharged=discharged + scan_ok,
+            obligations_smt=n_obs, obligations_scan=scan_obs,
             checker_cmd=f'./check {cid} --tier {tier}',
             trusted_base=P.get('trusted_base', []) + [
                 'pyvc engine semantics of the Python subset (DESIGN 3.3-3.4, 7.1)',
